@@ -58,10 +58,18 @@ def evaluate(f: Formula, env: dict) -> bool:
         return env[f[1]]
     if t == "not":
         return not evaluate(f[1], env)
+    # explicit loops: all()/any() over a generator are C calls, and C-level recursion is limited
+    # independently of sys.setrecursionlimit
     if t == "and":
-        return all(evaluate(g, env) for g in f[1])
+        for g in f[1]:
+            if not evaluate(g, env):
+                return False
+        return True
     if t == "or":
-        return any(evaluate(g, env) for g in f[1])
+        for g in f[1]:
+            if evaluate(g, env):
+                return True
+        return False
     if t == "true":
         return True
     if t == "false":
@@ -74,7 +82,7 @@ def count_ops(f: Formula) -> int:
     if t == "not":
         return 1 + count_ops(f[1])
     if t in ("and", "or"):
-        return max(0, len(f[1]) - 1) + sum(count_ops(g) for g in f[1])
+        return max(0, len(f[1]) - 1) + sum([count_ops(g) for g in f[1]])
     return 0
 
 
@@ -83,7 +91,10 @@ def has_not_over_group(f: Formula) -> bool:
     if t == "not":
         return f[1][0] in ("and", "or") and len(f[1][1]) > 1 or has_not_over_group(f[1])
     if t in ("and", "or"):
-        return any(has_not_over_group(g) for g in f[1])
+        for g in f[1]:
+            if has_not_over_group(g):
+                return True
+        return False
     return False
 
 
@@ -199,16 +210,18 @@ def equivalent(f: Formula, g: Formula, limit: int = 16384, seed: int = 0):
         sys.setrecursionlimit(old_limit)
 
 
-def show(f: Formula) -> str:
+def show(f: Formula, depth: int = 0) -> str:
+    if depth > 40:  # reports only: deep chains are abbreviated
+        return "..."
     t = f[0]
     if t == "atom":
         return repr(f[1]) if not isinstance(f[1], str) else f[1]
     if t == "not":
-        return "NOT " + show(f[1])
+        return "NOT " + show(f[1], depth + 1)
     if t in ("and", "or"):
         if not f[1]:
             return "TRUE" if t == "and" else "FALSE"
-        return "(" + f" {t.upper()} ".join(show(g) for g in f[1]) + ")"
+        return "(" + f" {t.upper()} ".join([show(g, depth + 1) for g in f[1]]) + ")"
     return t.upper()
 
 
